@@ -17,10 +17,11 @@ class Surface:
         self.gap_comments = kw.get("gap_comments", 0.0)  # probability that a gap contains a comment
         self.ws_kinds = kw.get("ws_kinds", [" "])  # extra whitespace drawn for gaps: " ", "\t", "\f"
         self.placed_comments = kw.get("placed_comments", False)  # emit Item.comment / above comments (lines layout)
+        self.numspell = kw.get("numspell", 0.0)  # probability of writing a number in another spelling (1E5, +5, .5, 007)
         self.name = kw.get("name", "")
 
     def describe(self):
-        return {k: getattr(self, k) for k in ("kwcase", "layout", "eol", "quote", "bare", "gap_comments", "ws_kinds")}
+        return {k: getattr(self, k) for k in ("kwcase", "layout", "eol", "quote", "bare", "gap_comments", "ws_kinds", "numspell")}
 
 
 CANONICAL = Surface(name="canonical")
@@ -76,9 +77,46 @@ def case_kw(text, surface, r):
     return "".join(ch.upper() if r.random() < 0.5 else ch.lower() for ch in text)
 
 
+def respell_number(text, r):
+    """Another spelling of the same number: exponent notation with E or e, explicit sign, leading zeros, bare leading / trailing dot.
+    The value (int stays int, float stays the same float) is unchanged."""
+    import decimal
+    try:
+        is_int = "." not in text and "e" not in text.lower()
+        neg = text.startswith("-")
+        body = text.lstrip("+-")
+        if is_int:
+            alts = ["00" + body, body]
+            if not neg:
+                alts.append("+" + body)
+                return r.choice(alts)
+            return "-" + r.choice(alts[:2])
+        d = decimal.Decimal(text)
+        if d.is_zero():
+            return text
+        sign, digits, exp = d.as_tuple()
+        ds = "".join(map(str, digits)).lstrip("0") or "0"
+        e10 = exp + len(ds) - 1
+        mant = ds[0] + "." + (ds[1:] or "0")
+        sci = f"{mant}{r.choice(['E', 'e', 'E'])}{r.choice(['', '+']) if e10 >= 0 else '-'}{abs(e10)}"
+        alts = [sci, sci.replace(".0E", ".E").replace(".0e", ".e")]
+        if body.startswith("0.") and len(body) > 2:
+            alts.append(body[1:])  # .5
+        if body.endswith(".0"):
+            alts.append(body[:-1])  # 5.
+        out = r.choice(alts)
+        if float(("-" if neg else "") + out) != float(text):
+            return text
+        return ("-" if neg else r.choice(["", "", "+"])) + out
+    except Exception:
+        return text
+
+
 def tok_text(tok, surface, r):
     if tok.kind == "kw":
         return case_kw(tok.text, surface, r)
+    if tok.kind == "num" and surface.numspell and r is not None and r.random() < surface.numspell:
+        return respell_number(tok.text, r)
     if tok.kind in ("word", "num", "raw"):
         return tok.text
     if tok.kind == "str":
@@ -240,5 +278,6 @@ def surfaces(r, n):
             bare=r.choice([0.0, 0.5, 1.0]),
             gap_comments=r.choice([0.0, 0.0, 0.1, 0.3]),
             ws_kinds=r.choice([[" "], [" ", "\t"], [" ", "\t", "\f"]]),
+            numspell=r.choice([0.0, 0.0, 0.3, 1.0]),
         ))
     return out
